@@ -94,6 +94,15 @@ static void api_body(const MODULE* mod) {
   check_same(a, a0, aw, "a");
   for (uint64_t i = (RSZ < ASZ ? RSZ : ASZ) * NN * DW; i < (uint64_t)RSZ * NN * DW; ++i) VF_ASSERT(res[i] == 0, "dft rows beyond the input size are exactly zero");
 #elif API == 2
+#ifdef INPLACE_IDFT
+  /* the inverse DFT writing over its own input (supported for the FFT64 layout, where a DFT limb and a big limb have the same size): one buffer of
+   * max(res_size, a_size) limbs, previous contents arbitrary; rows beyond the input size must still come out exactly zero */
+  uint64_t* res = buf((uint64_t)(RSZ > ASZ ? RSZ : ASZ) * NN * BW);
+  uint64_t* a = res;
+  uint64_t tb = words_of_bytes(vec_znx_idft_tmp_bytes(mod));
+  uint8_t* tmp = (uint8_t*)buf(tb);
+  vec_znx_idft(mod, (VEC_ZNX_BIG*)res, RSZ, (VEC_ZNX_DFT*)a, ASZ, tmp);
+#else
   uint64_t* res = buf((uint64_t)RSZ * NN * BW);
   uint64_t* a = buf((uint64_t)ASZ * NN * DW);
   uint64_t* a0 = vf_snapshot(a, (uint64_t)ASZ * NN * DW);
@@ -101,6 +110,7 @@ static void api_body(const MODULE* mod) {
   uint8_t* tmp = (uint8_t*)buf(tb);
   vec_znx_idft(mod, (VEC_ZNX_BIG*)res, RSZ, (VEC_ZNX_DFT*)a, ASZ, tmp);
   check_same(a, a0, (uint64_t)ASZ * NN * DW, "a_dft");
+#endif
   for (uint64_t i = (RSZ < ASZ ? RSZ : ASZ) * NN * BW; i < (uint64_t)RSZ * NN * BW; ++i) VF_ASSERT(res[i] == 0, "idft rows beyond the input size are exactly zero");
 #elif API == 3
   uint64_t* res = buf((uint64_t)RSZ * NN * BW);
